@@ -48,7 +48,7 @@ def plan(tier, seed, build, scale):
     n = 4 if tier == "quick" else 5
     for k in KINDS:
         deep = tier == "thorough" and k in ("future_ok", "future_raise", "task_item", "item_ok")
-        units.append({"mode": "exhaustive", "kind": k, "maxlen": n + (1 if deep else 0), "cases": [0, 1], "timeout": 2400, "case_timeout": 2300})
+        units.append({"mode": "exhaustive", "kind": k, "maxlen": n + (1 if deep else 0), "cases": [0, 1], "timeout": 2400, "case_timeout": 150})
     units.append({"mode": "scheduler", "cases": [0, 1]})
     nr = int((3000 if tier == "quick" else 60000) * scale)
     per = max(1, nr // 8)
@@ -507,6 +507,7 @@ def run_unit(unit, progress):
     os.dup2(devnull, 2)
 
     def one(kind, seq):
+        tl.tick()
         viol, nontrivial, nnotes = run_sequence(kind, seq)
         res["evaluations"] += 1
         c["notifications_observed"] = c.get("notifications_observed", 0) + nnotes
